@@ -1,4 +1,5 @@
 import Gbo.Proofs.FillQueue
+import Gbo.Proofs.Divide
 /-
   C13 — the sweep yields a planar subdivision.  Proved here, for ALL inputs: the queue-filling clause
   (`fill_queue` creates exactly one mutually linked pair per non-degenerate input edge, the left event
@@ -77,6 +78,41 @@ example :
     let sq : Poly := { ext := [⟨0,0⟩, ⟨1,0⟩, ⟨1,1⟩, ⟨0,1⟩, ⟨0,0⟩], holes := [] }
     let tr : Poly := { ext := [⟨0,0⟩, ⟨2,1⟩, ⟨0,2⟩, ⟨0,0⟩, ⟨0,0⟩], holes := [] }
     (fillQueue [sq] [tr] .union).fq.arena.size = 14 ∧ (operandStarts [sq]).length = 4 ∧ (operandStarts [tr]).length = 3 := by
+  decide +kernel
+
+/-- One division step under exact arithmetic.  When `divide_segment` is handed a point of the segment (for a
+    crossing that is `C16_exact_point_on_both`; for an overlap the point is an endpoint of the other segment
+    lying on this one), it appends two events at that point and re-links the pairing so that the old segment
+    `P_L P_R` is replaced by the two pieces `P_L inter` and `inter P_R`, whose union is exactly the old
+    segment; nothing else in the arena changes its point or its partner.  This is the step that keeps "the
+    pieces of every input edge tile that edge" invariant through the sweep. -/
+theorem C13_divide_exact (cfg : Cfg) (st st' : SwSt) (seL seR : Nat) (inter : Pt)
+    (h : divideSegment Arith.exact cfg st seL inter = .ok st')
+    (hoth : st.arena[seL]!.other = some seR) (hL : seL < st.arena.size) (hR : seR < st.arena.size) (hne : seL ≠ seR)
+    (hon : OnSegP inter st.arena[seL]!.point st.arena[seR]!.point) :
+    st'.arena.size = st.arena.size + 2 ∧
+    st'.arena[seL]!.other = some st.arena.size ∧ st'.arena[st.arena.size]!.other = some seL ∧
+    st'.arena[st.arena.size + 1]!.other = some seR ∧ st'.arena[seR]!.other = some (st.arena.size + 1) ∧
+    (∀ x, OnSegP x st.arena[seL]!.point st.arena[seR]!.point ↔
+      (OnSegP x st'.arena[seL]!.point st'.arena[st.arena.size]!.point ∨
+       OnSegP x st'.arena[st.arena.size + 1]!.point st'.arena[seR]!.point)) ∧
+    (∀ i, i < st.arena.size → i ≠ seL → i ≠ seR →
+      st'.arena[i]!.other = st.arena[i]!.other ∧ st'.arena[i]!.point = st.arena[i]!.point) := by
+  have he := divideSegment_exact_arena cfg st st' seL seR inter h hoth
+  obtain ⟨h1, h2, h3, h4, h5, h6, h7, h8, h9⟩ := divideArena_spec st.arena seL seR inter hL hR hne
+  rw [he]
+  refine ⟨h1, h5, h6, h8, h7, ?_, fun i hi n1 n2 => ⟨h9 i hi n1 n2, h2 i hi⟩⟩
+  intro x
+  rw [h2 seL hL, h2 seR hR, h3, h4]
+  exact OnSegP_split inter _ _ x hon
+
+/-- non-vacuity: dividing the diagonal of a square at its midpoint -/
+example :
+    let a : Arena := #[{ point := ⟨0, 0⟩, left := true, other := some 1, isSubject := true, contourId := 0, isExteriorRing := true },
+                       { point := ⟨2, 2⟩, left := false, other := some 0, isSubject := true, contourId := 0, isExteriorRing := true }]
+    (match divideSegment Arith.exact {} { arena := a, heap := #[] } 0 ⟨1, 1⟩ with
+     | .ok st' => st'.arena.size == 4 && st'.arena[0]!.other == some 2 && st'.arena[3]!.other == some 1
+     | .error _ => false) = true := by
   decide +kernel
 
 end Gbo.Props
